@@ -338,3 +338,13 @@ func (v *VerifShard) SeriesIDs(mst string, anyField VerifField) (map[uint64]stri
 	}
 	return out, nil
 }
+
+// Quiesce switches level compaction and out-of-order merge off (both switches: the explicit
+// LevelCompact / FullCompact / MergeOutOfOrder calls of the facade turn one of them on and
+// DisableBackground only acts while compaction is on) and waits for running ones, so that the
+// file layout cannot change until the next explicit call.
+func (v *VerifShard) Quiesce() {
+	v.sh.immTables.CompactionDisable()
+	v.sh.immTables.MergeDisable()
+	v.wait()
+}
